@@ -70,6 +70,14 @@ fn check_built(case: &Case, bytes: &[u8], how: &str, ev: &mut Ev) {
     let r = guard(|| -> Result<(), String> {
         let f = Fst::new(bytes).map_err(|e| format!("does not open: {}", e))?;
         f.verify().map_err(|e| format!("verify() failed: {}", e))?;
+        // and as a sub-slice at an odd address
+        if bytes.len() >= 512 {
+            let off = 1 + bytes.len() % 15;
+            let mut buf = vec![0xEEu8; off + bytes.len() + 3];
+            buf[off..off + bytes.len()].copy_from_slice(bytes);
+            let g = Fst::new(&buf[off..off + bytes.len()]).map_err(|e| format!("does not open at offset {}: {}", off, e))?;
+            g.verify().map_err(|e| format!("verify() failed for the same bytes viewed at offset {} of a larger buffer: {}", off, e))?;
+        }
         let want = refdec::mask(refdec::crc32c(&bytes[..bytes.len() - 4]));
         let got = u32::from_le_bytes([bytes[bytes.len() - 4], bytes[bytes.len() - 3], bytes[bytes.len() - 2], bytes[bytes.len() - 1]]);
         if want != got {
@@ -186,6 +194,38 @@ fn fast_path(ctx: &Ctx, shard: usize, n: usize, ev: &mut Ev) {
             Ok(Err(e)) => ev.violate("reference-crc-rejected", format!("synthetic {}-byte image does not open: {}", l, e), J::U(l as u64)),
             Err(p) => ev.violate("verify-panic", format!("synthetic image of {} bytes: {}", l, p), J::U(l as u64)),
         }
+        // special values of the STORED checksum: forge the body so that the correct masked CRC-32C is exactly
+        // 0, 1, 0x80000000 or 0xFFFFFFFF; such a file is as valid as any other
+        if l >= 48 && l % 37 == 0 {
+            for (ti, target) in [0u32, 1, 0x8000_0000, 0xFFFF_FFFF].iter().enumerate() {
+                let mut forged = img.clone();
+                let n = forged.len() - 4;
+                if refdec::forge_masked_crc(&mut forged[..n], 16 + (ti * 5) % (l - 16 - 20 - 4), *target) {
+                    forged[n..].copy_from_slice(&target.to_le_bytes());
+                    ev.eval(None);
+                    ev.distinct_extra += 1;
+                    ev.count("fastpath:forged-special-checksum-values");
+                    match guard(|| Fst::new(&forged[..]).map(|f| f.verify().map_err(|e| format!("{:?}", e)))) {
+                        Ok(Ok(Ok(()))) => {}
+                        Ok(Ok(Err(e))) => ev.violate("reference-crc-rejected", format!("a {}-byte version-3 image whose correct masked CRC-32C is {:#010x} (stored in its footer) fails verify(): {}", l, target, e), J::s(crate::json::hex(&forged[..forged.len().min(120)]))),
+                        Ok(Err(e)) => ev.violate("reference-crc-rejected", format!("forged {}-byte image does not open: {}", l, e), J::U(l as u64)),
+                        Err(p) => ev.violate("verify-panic", format!("forged image of {} bytes: {}", l, p), J::U(l as u64)),
+                    }
+                }
+            }
+        }
+        // the same image at every address alignment (the checksum code may treat aligned and unaligned data differently)
+        if l % 5 == 0 || l >= 1024 && l % 3 == 0 {
+            let off = 1 + (l % 31);
+            let mut buf = vec![0u8; off + l];
+            buf[off..].copy_from_slice(&img);
+            ev.count("fastpath:misaligned-views");
+            match guard(|| Fst::new(&buf[off..]).map(|f| f.verify().is_ok())) {
+                Ok(Ok(true)) => {}
+                Ok(_) => ev.violate("reference-crc-rejected", format!("a valid {}-byte image fails verify() when it is viewed at offset {} of a larger buffer (address alignment)", l, off), J::U(l as u64)),
+                Err(p) => ev.violate("verify-panic", format!("misaligned view of {} bytes: {}", l, p), J::U(l as u64)),
+            }
+        }
         // flip one bit anywhere before the checksum (but keep version and the root check intact)
         let pos = 16 + rng.usize(l - 16 - 12);
         img[pos] ^= 1 << rng.below(8);
@@ -289,7 +329,7 @@ pub fn run(ctx: &Ctx) -> i32 {
         }
         fast_path(ctx, shard, n, ev);
     });
-    let mut floors: Vec<(&str, u64)> = vec![("built-fsts-verified", 1000), ("built-fsts-verified:chunked-sink", 20), ("mutants:version", 1000), ("mutants:type", 1000), ("mutants:body", 1000), ("mutants:len", 1000), ("mutants:root-addr", 1000), ("mutants:checksum", 1000), ("fastpath:lengths", 4000)];
+    let mut floors: Vec<(&str, u64)> = vec![("built-fsts-verified", 1000), ("built-fsts-verified:chunked-sink", 20), ("mutants:version", 1000), ("mutants:type", 1000), ("mutants:body", 1000), ("mutants:len", 1000), ("mutants:root-addr", 1000), ("mutants:checksum", 1000), ("fastpath:lengths", 4000), ("fastpath:forged-special-checksum-values", 100), ("fastpath:misaligned-views", 500)];
     let names: Vec<String> = (0..16).map(|i| format!("fastpath:len-mod-16={}", i)).collect();
     for nm in &names {
         floors.push((nm.as_str(), 100));
@@ -299,7 +339,7 @@ pub fn run(ctx: &Ctx) -> i32 {
         ev,
         Spec {
             level: "fault_enumeration",
-            rule: "three monitors. (a,b) one evaluation = one built FST (shared pool, two front ends, plus hostile chunked sinks): verify() must be Ok and the trailing 4 bytes must equal the masked CRC-32C of all preceding bytes computed by a bit-at-a-time reference. (c) one evaluation = one mutated image: for small FSTs EVERY offset x EVERY one of the 255 other byte values, plus bit flips sampled over corpus FSTs: the mutant must fail to open or fail verify() (never certified), both when opened directly and (every 4th mutant, all footer mutants) when it arrives through map_data on an FST opened from the good bytes; 2-4 byte bursts are run for panics only. (d) for every length 36..4200 (thorough 20000) a synthetic version-3 image with random body and reference checksum must verify (all lengths mod 16, all tail lengths of the slice-by-16 path) and must not verify after one bit flip; non-trivial = every evaluation; distinct = by construction (fst, offset, value) / fingerprint",
+            rule: "three monitors. (a,b) one evaluation = one built FST (shared pool, two front ends, plus hostile chunked sinks): verify() must be Ok and the trailing 4 bytes must equal the masked CRC-32C of all preceding bytes computed by a bit-at-a-time reference. (c) one evaluation = one mutated image: for small FSTs EVERY offset x EVERY one of the 255 other byte values, plus bit flips sampled over corpus FSTs: the mutant must fail to open or fail verify() (never certified), both when opened directly and (every 4th mutant, all footer mutants) when it arrives through map_data on an FST opened from the good bytes; 2-4 byte bursts are run for panics only. (d) for every length 36..4200 (thorough 20000) a synthetic version-3 image with random body and reference checksum must verify (all lengths mod 16, all tail lengths of the slice-by-16 path) and must not verify after one bit flip; images are also verified as sub-slices at odd addresses, and for every 37th length the body is forged (GF(2) solve) so that the CORRECT stored checksum is exactly 0, 1, 0x80000000 or 0xFFFFFFFF; non-trivial = every evaluation; distinct = by construction (fst, offset, value) / fingerprint",
             assumptions: vec!["version byte 3->1/2 mutants open and report ChecksumMissing: that is 'not certified', as the statement's last clause requires".into()],
             floors,
             exhaustive: Some(true),
